@@ -9,6 +9,7 @@ import (
 	"sort"
 	"strings"
 
+	"github.com/lindb/lindb/internal/verifhook"
 	"github.com/lindb/lindb/sql"
 	"github.com/lindb/lindb/sql/stmt"
 
@@ -31,6 +32,22 @@ func (area) Run(c *core.Ctx) error {
 		}
 		c.Begin(i)
 		r := c.Rng(i)
+		runOneCase(c, r, i)
+	}
+	return nil
+}
+
+// runOneCase dispatches case i. A panic that escapes every per-op guard (harness bookkeeping after a
+// mutated implementation left an unexpected state) is a failure of THIS case (key "panic"), never the
+// end of the run.
+func runOneCase(c *core.Ctx, r *rand.Rand, i int) {
+	defer func() {
+		if rec := recover(); rec != nil {
+			verifhook.Set(nil)
+			c.Fail("panic", fmt.Sprintf("case %d: harness-level panic: %v", i, rec))
+		}
+	}()
+	{
 		switch {
 		case i == 0:
 			witnessLikeStar(c)
@@ -62,7 +79,6 @@ func (area) Run(c *core.Ctx) error {
 			dbCase(c, r)
 		}
 	}
-	return nil
 }
 
 // ---------------------------------------------------------------- protocol helpers
